@@ -40,8 +40,16 @@ func (r *run) events() map[string]any {
 	return map[string]any{
 		"cancel_calls": r.cancelsCopy(), "user_panics": pv, "reducer_writes": r.writesCopy(),
 		"ctx_end_inv": r.ctxEndInv.Load(), "ctx_end_ret": r.ctxEndRet.Load(), "reducer_return_stamp": r.redRet.Load(),
-		"mapped_per_item": mapped, "gauge_max": r.gauge.Max(), "fault_reached": r.faultHit.Load() == 1, "ctx_trigger_reached": r.ctxHit.Load() == 1,
+		"mapped_per_item": mapped, "gauge_max": r.gauge.Max(), "fault_reached": r.faultHit.Load() == 1, "more_faults_reached": r.moreReachedList(), "ctx_trigger_reached": r.ctxHit.Load() == 1,
 	}
+}
+
+func (r *run) moreReachedList() []bool {
+	out := make([]bool, len(r.moreHit))
+	for i := range r.moreHit {
+		out[i] = r.moreHit[i].Load() == 1
+	}
+	return out
 }
 
 func (r *run) viol(key, what string, o outcome) {
@@ -70,10 +78,27 @@ func (r *run) judge(o outcome, leakFree bool) {
 
 	// evidence: signature = plan + outcome class; non-trivial iff a fault/context end really happened
 	// at its planned position, or a clean run had more items than mapper slots or a stalled function
-	nontrivial := r.faultHit.Load() == 1 || r.cancelParked.Load() != 0 || r.ctxHit.Load() == 1 || p.ctxBeforeCall() ||
+	moreReached := 0
+	for i := range r.moreHit {
+		if r.moreHit[i].Load() == 1 {
+			moreReached++
+			f := p.More[i]
+			r.c.Obs("more_fault_reached_"+strings.ReplaceAll(f.Kind, " ", "_")+"_"+f.At.Role, 1)
+		}
+	}
+	if moreReached > 0 && r.faultHit.Load() == 1 {
+		r.c.Obs("runs_with_two_or_more_planned_faults_reached", 1)
+	}
+	if n := distinctDynTypes(cancels); n > 1 {
+		r.c.Obs("runs_with_cancel_errors_of_distinct_dynamic_types", 1)
+	}
+	if len(panics) > 1 {
+		r.c.Obs("runs_with_two_or_more_user_panics", 1)
+	}
+	nontrivial := r.faultHit.Load() == 1 || moreReached > 0 || r.cancelParked.Load() != 0 || r.ctxHit.Load() == 1 || p.ctxBeforeCall() ||
 		(clean && p.Items > p.effWorkers()) || (timerCtx && isCtxErr(o.Err))
 	r.c.Sig(nontrivial, p.API, p.Items, p.Workers, p.NoWorkers, p.Fan, p.Red, p.Kind, p.At, p.Then, p.Ctx, p.CtxPos,
-		p.SecondKind, p.SecondAt, p.Inflight, o.Kind, leakFree)
+		p.SecondKind, p.SecondAt, p.Inflight, o.Kind, leakFree, p.Errs, p.PanicVal, p.More)
 	r.c.Obs("outcome_"+o.Kind, 1)
 	if r.faultHit.Load() == 1 {
 		r.c.Obs("fault_reached_"+strings.ReplaceAll(p.Kind, " ", "_")+"_"+p.At.Role, 1)
@@ -143,23 +168,63 @@ func (r *run) judgeClean(o outcome) {
 	}
 }
 
+// passedToCancel: the returned error is identical to a (non-nil) error that was
+// handed to cancel - or returned by a Finish function - before the call returned.
+func (r *run) passedToCancel(o outcome, cancels []cancelEv) bool {
+	for _, c := range cancels {
+		if c.err != nil && sameErr(c.err, o.Err) && c.Inv < o.Ret {
+			r.c.Obs("cancel_error_returned", 1)
+			r.c.Obs("cancel_error_returned_value_"+errClassOf(o.Err), 1)
+			if n := distinctDynTypes(cancels); n > 1 {
+				r.c.Obs("cancel_error_returned_of_several_dynamic_types_offered", 1)
+			}
+			if r.p.API == apiFinish && len(cancels) > 1 {
+				r.c.Obs("finish_two_or_more_fns_failed_one_error_returned", 1)
+			}
+			if errors.Is(o.Err, mr.ErrReduceNoOutput) || errors.Is(o.Err, mr.ErrCancelWithNil) || isCtxErr(o.Err) {
+				r.c.Obs("cancel_error_returned_wrapping_a_sentinel", 1)
+			}
+			return true
+		}
+	}
+	return false
+}
+
 func (r *run) judgeFaulted(o outcome, cancels []cancelEv, panics []panicEv, writes []writeEv, ctxMayHaveEnded, ctxEndedInRun bool, ctxRet uint64) {
 	p := r.p
 	switch o.Kind {
 	case "panic":
-		if up, ok := o.Panic.(userPanic); ok {
-			for _, e := range panics {
-				if e.Val == up && e.Stamp < o.Ret {
-					r.c.Obs("user_panic_reraised", 1)
-					return
+		// re-raised user panic: the recovered value is (identical to) a value a user function of this
+		// run panicked with before the call returned
+		for _, e := range panics {
+			if sameVal(e.val, o.Panic) && e.Stamp < o.Ret {
+				r.c.Obs("user_panic_reraised", 1)
+				r.c.Obs("user_panic_reraised_value_"+panicClassOf(o.Panic), 1)
+				if !p.hasReducer() {
+					r.c.Obs("user_panic_reraised_by_api_without_reducer", 1)
 				}
+				if len(panics) > 1 {
+					r.c.Obs("user_panic_reraised_one_of_several", 1)
+				}
+				return
 			}
+		}
+		if _, ok := o.Panic.(userPanic); ok || panicClassOf(o.Panic) == "typed_nil_pointer" {
 			r.viol("C10/outcome/foreign-user-panic", "re-raised a user panic value that was not raised in this run before the return: "+o.PanS, o)
 			return
 		}
 		if p.Red == redTwice && o.PanS == "more than one element written in reducer" {
 			r.c.Obs("documented_double_write_panic", 1)
 			return
+		}
+		for _, e := range panics {
+			if txt := fmt.Sprint(e.val); e.Stamp < o.Ret && len(txt) > 8 && strings.Contains(o.PanS, txt) {
+				// the text of the recovered value contains the text of a value a user function of this run
+				// panicked with, but it is not that value: it was altered on its way to the caller
+				r.viol("C10/outcome/user-panic-value-altered/"+panicClassOf(e.val),
+					fmt.Sprintf("the call panicked with a %T that mentions the user panic by %s but is not the value (%s) that function panicked with: %s", o.Panic, e.By, e.Dyn, o.PanS), o)
+				return
+			}
 		}
 		key := "C10/outcome/non-user-panic/" + kit.KeyPart(firstN(o.PanS, 40))
 		if o.PanS == "send on closed channel" {
@@ -169,6 +234,10 @@ func (r *run) judgeFaulted(o outcome, cancels []cancelEv, panics []panicEv, writ
 		return
 	case "error":
 		switch {
+		case r.passedToCancel(o, cancels):
+			// identical to an error handed to cancel in this run before the return: whatever that error
+			// wraps or equals (a sentinel of core/mr, a context error), it is the caller's own
+			return
 		case isCtxErr(o.Err):
 			if ctxMayHaveEnded {
 				r.c.Obs("ctx_error_returned", 1)
@@ -188,13 +257,14 @@ func (r *run) judgeFaulted(o outcome, cancels []cancelEv, panics []panicEv, writ
 		case errors.Is(o.Err, mr.ErrReduceNoOutput) && (p.API == apiMR || p.API == apiChan):
 			// success-like: handled below
 		default:
+			key := "C10/outcome/error-from-nowhere"
 			for _, c := range cancels {
-				if c.err != nil && c.err == o.Err && c.Inv < o.Ret {
-					r.c.Obs("cancel_error_returned", 1)
-					return
+				if c.err != nil && c.Inv < o.Ret && errors.Is(o.Err, c.err) {
+					key += "/wraps-an-error-passed-to-cancel" // errors.Is finds it inside, but it is a different value
+					break
 				}
 			}
-			r.viol("C10/outcome/error-from-nowhere", "returned an error that was not passed to cancel in this run before the return: "+o.ErrS, o)
+			r.viol(key, fmt.Sprintf("returned an error (%T) that was not passed to cancel in this run before the return: %s", o.Err, o.ErrS), o)
 			return
 		}
 	}
